@@ -7,7 +7,7 @@ TECHNIQUE = "slice-bounded-by-result provenance rule on the hashing writer; loop
 EXPLANATION = ("gix_features::hash::Write::write must feed the hasher exactly `buf[..written]` where `written` is the value the inner writer returned, and return that same "
                "value; deflate::Write::write_inner may only loop again on the true edge of `total_out() > last_total_out` or `total_in() > last_total_in` (so a call that "
                "neither consumed input nor produced output returns), writes exactly the produced bytes to the inner writer, flush() drives the loop with FlushCompress::Finish "
-               "and write() with FlushCompress::None; the generic loop-progress analysis also holds for every loop of the zlib module. In gix_features::hash a hasher update that follows io::Read::read takes a slice cut by the returned count (read_exact: the filled slice). inflate(deflate(x)) = x is zlib's contract and not decided.")
+               "and write() with FlushCompress::None; the generic loop-progress analysis also holds for every loop of the zlib module. In gix_features::hash a hasher update that follows io::Read::read takes a slice cut by the returned count (read_exact: the filled slice). Every Ok(n) of write_inner is total_in() minus a value read before its loop (or a loop accumulator), so write() reports all rounds. inflate(deflate(x)) = x is zlib's contract and not decided.")
 
 
 def run(db, chk):
@@ -56,6 +56,7 @@ def run(db, chk):
         for c in comp:
             r = wi.reach_from(c.target, avoid_edges=adv) if c.target is not None else set()
             chk.ob("deflate-loop-continues-only-on-progress", "write_inner", l["header"] not in r, "the loop can iterate again although neither input nor output advanced", c.where(), key="deflate-progress")
+    count_from_entry_rule(chk, wi, wfl, ls)
     wa = [c for c in wi.calls_to(r"io::Write::write_all$")]
     ok = bool(wa) and all(any(x[0] == "call" and x[1].endswith("total_out") for x in wfl.roots(c.args[1], stop_named=False)) for c in wa)
     chk.ob("writes-produced-bytes", "write_inner writes buf[..written]", ok, "", "%s:%d" % (wi.file, wi.line), key="writes-produced-bytes")
@@ -113,3 +114,57 @@ def hash_what_was_read(db, chk):
                     chk.ob("hash-what-was-read", "%s update@%d after read_exact@%d" % (f.name.split("gix_features::")[-1], u.line, r_.line), bool(same),
                            "the slice hashed is not the slice that read_exact filled", u.where(), key="hash-what-was-read-exact|%s" % f.name.split("::")[-1])
     chk.floor("hasher updates fed from a reader in gix_features::hash", n_exact + n_short, 1)
+
+
+def count_from_entry_rule(chk, wi, wfl, ls):
+    """io::Write::write must report ALL bytes it consumed: write_all re-submits what the count leaves out, and those bytes would be compressed
+    twice (the object id, hashed on the way in, would no longer describe the stored stream).  write_inner consumes input over several rounds of
+    its loop, so every Ok(n) it returns must measure from the function's entry: n = total_in() - s with s read before the loop (or n is a
+    variable accumulated inside the loop) - never a difference against a value read inside the loop (one round only)."""
+    body = set().union(*[l["body"] for l in ls]) if ls else set()
+    defs = {}
+    for bi, si, pl, rv, ln, mc in wi.assigns():
+        if len(pl) == 1:
+            defs.setdefault(pl[0], []).append((bi, rv, ln))
+    by_dest = {}
+    for c in wi.calls():
+        if c.dest and len(c.dest) == 1:
+            by_dest.setdefault(c.dest[0], []).append(c)
+
+    def strip(op, depth=0):
+        """follow copies and integer casts back to the defining rvalue/call of a single-assignment local"""
+        while depth < 12 and "p" in op:
+            l = op["p"][0]
+            proj = [x for x in op["p"][1:] if x != "*"]
+            ds, cs = defs.get(l, []), by_dest.get(l, [])
+            if len(ds) == 1 and not cs and ds[0][1][0] in ("use", "cast") and (not proj or proj == [".0"]):
+                op = ds[0][1][1] if ds[0][1][0] == "use" else ds[0][1][2]
+            elif len(ds) == 1 and not cs and ds[0][1][0] == "bin" and proj == [".0"]:
+                return ("bin", ds[0][0], ds[0][1])
+            elif len(ds) == 1 and not cs and ds[0][1][0] == "bin" and not proj:
+                return ("bin", ds[0][0], ds[0][1])
+            elif len(cs) == 1 and not ds:
+                return ("call", cs[0].block, cs[0])
+            else:
+                return ("multi", l, ds, cs)
+            depth += 1
+        return ("const", op)
+    n = 0
+    for bi, si, pl, rv, ln, mc in wi.assigns():
+        if not (rv[0] == "agg" and rv[1] == "adt" and rv[3] == "Ok" and rv[2].endswith("Result") and len(rv[4]) == 1):
+            continue
+        if pl != [0]:
+            continue
+        n += 1
+        d = strip(rv[4][0])
+        ok, why = False, "the returned count is not `total_in() - <value read before the loop>`"
+        if d[0] == "bin" and d[2][1].startswith("Sub"):
+            rhs = strip(d[2][3])
+            lhs = strip(d[2][2])
+            if rhs[0] == "call" and rhs[2].is_(r"Compress::total_in$") and lhs[0] == "call" and lhs[2].is_(r"Compress::total_in$"):
+                ok = rhs[1] not in body
+                why = "the count is measured against total_in() read INSIDE the loop (line %d): only the last round is reported, earlier rounds are re-submitted by write_all" % rhs[2].line
+        elif d[0] == "multi" and any(x[1][0] == "bin" and x[1][1].startswith("Add") and x[0] in body for x in d[2]):
+            ok = True   # an accumulator updated in the loop
+        chk.ob("count-measured-from-entry", "write_inner Ok@%d" % ln, ok, why, "%s:%d" % (wi.file, ln), key="count-from-entry|write_inner")
+    chk.floor("write_inner: Ok(count) returns", n, 2)
